@@ -365,11 +365,6 @@ Section Gen.
   Hypothesis extend_noop : noop2 extend_f.
   Hypothesis insert_noop : forall m i c, snd (insert_f m i c) <> Ok -> fst (insert_f m i c) = m.
 
-  Ltac pairfst f H :=
-    let E := fresh in
-    match goal with |- context [let (_, _) := ?t in _] =>
-      pose proof (H) as E; destruct t eqn:?; simpl in * end.
-
   Lemma step_gen_noop s o :
     snd (step_gen dstand_f istand_f extend_f insert_f s o) <> Ok ->
     fst (step_gen dstand_f istand_f extend_f insert_f s o) = s.
